@@ -371,8 +371,16 @@ class Inotify:
                         # The directory may come from outside the watched tree, or it (or one
                         # of its sub-directories) was renamed before its watch could be
                         # installed: make sure everything below the new name is watched.
+                        # A directory that vanishes meanwhile must not keep its siblings from being watched.
                         with contextlib.suppress(OSError):
-                            self._add_dir_watch(inotify_event.src_path, self._event_mask, recursive=True)
+                            self._add_watch(inotify_event.src_path, self._event_mask)
+                        for _root, _dirnames, _ in os.walk(inotify_event.src_path, followlinks=self._follow_symlink):
+                            for _dirname in _dirnames:
+                                _full_path = os.path.join(_root, _dirname)
+                                if not self._follow_symlink and os.path.islink(_full_path):
+                                    continue
+                                with contextlib.suppress(OSError):
+                                    self._add_watch(_full_path, self._event_mask)
                     src_path = os.path.join(wd_path, name)
                     inotify_event = InotifyEvent(wd, mask, cookie, name, src_path)
 
